@@ -63,6 +63,14 @@ class C11(Prop):
                     return 'TaskTimeout left a block that did not expire'
             if exc == 'TimeoutCancellationError' and expired:
                 return 'a block reported expiry although it saw TimeoutCancellationError'
+        # UncaughtTimeoutError is reserved for an inner timeout nobody handled: it can only leave a block at the very
+        # instant at which a block inside it let a TaskTimeout (or that error) out
+        for i, (exc, expired, t0, dl, t1, kind) in enumerate(obs['log']):
+            if exc == 'UncaughtTimeoutError' and not any(
+                    e2 in ('TaskTimeout', 'UncaughtTimeoutError') and abs(t1b - t1) < 1e-9
+                    for e2, _, _, _, t1b, _ in obs['log'][:i]):
+                return ('UncaughtTimeoutError left a block although no block inside it let a timeout out at that instant '
+                        '(an inner timeout that was handled earlier was taken for an unhandled one)')
         return None
 
     def nontrivial(self, case, obs):
